@@ -54,7 +54,7 @@ def run_scenario(sc: dict[str, Any]) -> dict[str, Any]:
             finally:
                 sim.rec('d.exit', loop=OP, name=name)
         if sc['nobj'] and not sc.get('nodaemon'):
-            kopf.daemon(GROUP, VERSION, PLURAL, registry=reg, id='d', cancellation_backoff=1, cancellation_timeout=1)(d)
+            kopf.daemon(GROUP, VERSION, PLURAL, registry=reg, id='d', cancellation_backoff=sc.get('dback', 1), cancellation_timeout=1)(d)
         if sc.get('fault') and sc['fault'][0] == 'relogin':
             sim.srv.valid_gens = set()
             sim.login_script = lambda op, n: 'ok' if n == 1 else 'perm'
@@ -98,6 +98,8 @@ def run_scenario(sc: dict[str, Any]) -> dict[str, Any]:
         for (t, nm) in sc.get('edits', []):
             ns = 'ns2' if nm == 'q0' else 'ns'
             sim.world.at(t, lambda nm=nm, ns=ns: sim.edit(nm, lambda o: o.setdefault('spec', {}).update(x=int(sim.now)), ns=ns) if sim.obj(nm, ns=ns) is not None else None, 1)
+        for (t, nm) in sc.get('dels', []):        # the object is marked for deletion: its daemon is being stopped (graceful stage) when the stop lands
+            sim.world.at(t, lambda nm=nm: sim.delete(nm) if sim.obj(nm) is not None else None, 1)
         if sc.get('nsdel') is not None:
             def nsdel() -> None:
                 if sim.obj('q0', ns='ns2') is not None: sim.delete('q0', ns='ns2')
@@ -238,7 +240,12 @@ def gen_scenarios(seed: int, n: int) -> list[dict[str, Any]]:
             nsdel = trigger[1] - rnd.choice([0, 1, 2]); edits.append((nsdel - rnd.choice([0, 1]), 'q0'))
         bound = 14 + max([len(x) for x in cleanup] or [0]) * (cdur + 1) + s_total + hdur
         end = max(t, fault[1] if fault else 0, s_total) + bound + 25
-        out.append({'id': f'life-{seed}-{k}', 'startup': startup, 'cleanup': cleanup, 'sdur': sdur, 'cdur': cdur, 'peering': peering,
+        extra: dict[str, Any] = {}
+        r2 = random.Random(f'life-del-{seed}-{k}')       # (a stream of its own: the older histories stay what they were)
+        if nobj and trigger and trigger[1] >= s_total + 3 and not (fault or nsdel is not None) and r2.random() < 0.35:
+            # an object is marked for deletion shortly before the stop: its daemon is in the middle of its staged termination
+            extra = {'dback': r2.choice([1, 2, 3, 4]), 'dels': [(trigger[1] - r2.choice([0, 1, 2]), 'p0')]}
+        out.append({**extra, 'id': f'life-{seed}-{k}', 'startup': startup, 'cleanup': cleanup, 'sdur': sdur, 'cdur': cdur, 'peering': peering,
                     'nobj': nobj, 'dmode': rnd.choice(['obey', 'cancel']), 'trigger': trigger, 'fault': fault, 'bound': bound, 'end': end,
                     'edits': edits + ([(e[0], 'p1') for e in edits if e[1] == 'p0'] if nobj > 1 else []), 'hdur': hdur, 'ns2': ns2, 'nsdel': nsdel,
                     'wlimit': wlimit})
@@ -260,6 +267,14 @@ def crafted() -> list[dict[str, Any]]:
             out.append({'id': f'crafted-early-{kind}-{plag}-{t}', 'startup': [], 'cleanup': [['ok']], 'sdur': 0, 'cdur': 0, 'peering': True, 'plag': plag,
                         'nobj': 0, 'dmode': 'obey', 'trigger': (kind, t), 'fault': None, 'bound': 24, 'end': 60,
                         'edits': [], 'hdur': 0, 'ns2': False, 'nsdel': None})
+    # an object is marked for deletion and its daemon (which leaves only when cancelled) is in the graceful stage of its termination
+    # (the worker sleeps for the cancellation backoff) when the operator is stopped: the daemon is stopped all the same, before the cleanup
+    for kind in ('stop', 'cancel'):
+        for dback, d_stop in ((3, 1), (3, 2), (2, 1), (4, 0)):
+            t = 10
+            out.append({'id': f'crafted-deldaemon-{kind}-{dback}-{d_stop}', 'startup': [], 'cleanup': [['ok']], 'sdur': 0, 'cdur': 1, 'peering': False,
+                        'nobj': 2, 'dmode': 'cancel', 'dback': dback, 'trigger': (kind, t + d_stop), 'fault': None, 'bound': 24, 'end': 70,
+                        'edits': [], 'dels': [(t, 'p0')], 'hdur': 0, 'ns2': False, 'nsdel': None})
     # a saturated worker limit at the moment of the stop: handlers in flight on `limit` objects, more objects queued
     for kind in ('stop', 'cancel'):
         for lim, d_stop in ((1, 1), (1, 0), (2, 1)):
